@@ -10,7 +10,7 @@ NOTES = 'Exit codes of ./check: 0 all obligations discharged; 1 VIOLATION (defin
 PENDING = 'check not built yet in this session (planned in DESIGN.md section 5)'
 NOT_APPLICABLE = {
     'C06': PENDING, 
-    'C14': PENDING, 'C15': PENDING, 'C16': PENDING, 'C18': PENDING,
+    'C14': PENDING, 'C15': PENDING, 'C16': PENDING, 
     'C11': 'numerical accuracy of a 1000-bin f32 convolution against an exact enumeration over K^M words: floats are uninterpreted in Verus and the convolution is out of reach of CBMC; no contract within reach expresses or decides it (DESIGN.md 5/C11)',
     'C12': 'HashMap<i64,f64> dynamic programming bounded by exact tail probabilities of the true score distribution: a protocol-level real-number argument (TFM-PVALUE paper), not expressible over the real code with Verus (opaque floats, no HashMap iteration specs) or Kani (unbounded loops over float maps) (DESIGN.md 5/C12)',
     'C13': 'same algorithm and obstacle as C12 (score thresholds from the same f64 HashMap recurrences) (DESIGN.md 5/C13)',
@@ -18,6 +18,12 @@ NOT_APPLICABLE = {
 }
 
 CHECKS = {
+    'C18': {
+        'text': 'Partial (pure fragments): deductive proof (Verus) on the verbatim bodies of {Count,Weight,Scoring}Matrix.__getitem__, EncodedSequence.__getitem__/__len__, StripedScores.__getitem__/__len__ (all isize indices: in-range of either sign returns the right element, everything else IndexError, and no out-of-range index ever reaches the backing matrix, i.e. no panic), and of the shape/stride computations in ScoringMatrix::new, From<StripedSequenceData>, From<StripedScores<f32>> against the buffer-protocol addressing rule. PyO3 types are shells; the live behaviour is cross-checked natively by an embedded CPython (pyreplay crate, thorough tier and on any failure).',
+        'design_ref': 'DESIGN.md section 5, C18; section 8 (defects D7a, D7b, D7c fixed; D7d recorded)',
+        'note': 'Trusted: Verus/Z3; PyO3 shells (A-PY0..2), buffer-protocol addressing (A-PY1). Not covered: memoryview/tolist at run time beyond the native sweep, pointer lifetime across configure(), stale cached shape (D7d).',
+        'technique': 'contract-based deductive verification (Verus, real bodies extracted per run) with PyO3 shells; native embedded-CPython replay',
+    },
     'C03': {
         'text': 'Unbounded deductive proof (Verus) of Scanner::max on its verbatim body (initial best among buffered hits, block loop, candidate loop with the running best and its 8-bit pruning bound): returns None exactly when no un-consumed position scores >= threshold; otherwise a pending position, with its exact score, that is >= the score of every pending position. The invariant ties the pruning bound to the byte image of a value the best score dominates; the two places where the original code broke that (first candidate not compared with the threshold; bound set to the rounded-up byte score) were found as failing obligations, reproduced natively and fixed. Holds for all block sizes and all prefixes of next() calls because it is stated over the abstract pending set.',
         'design_ref': 'DESIGN.md section 5, C03; section 8 (defects D1, D2, D9, D10 fixed)',
